@@ -55,12 +55,21 @@ func (c consts) frac(ns int64) int64 { return mod(floorDiv(ns*c.fracUnits, c.nsP
 func (c consts) eraBase(tref int64) int64 {
 	return c.epoch + (tref-c.epoch)/c.eraSecs*c.eraSecs // Go's / is TDiv
 }
-func (c consts) unfold(s32, tref int64, fwdOnly bool) int64 {
+func (c consts) unfold(s32, f, tref, rn int64, fwdOnly, wholeSec bool) int64 {
 	sec := c.eraBase(tref) + s32
-	if sec < tref-c.eraSecs/2 {
+	half := c.eraSecs / 2
+	var fwd, bwd bool
+	if wholeSec {
+		fwd, bwd = sec < tref-half, sec >= tref+half
+	} else {
+		fref := c.frac(rn)
+		fwd = sec < tref-half || sec == tref-half && f < fref
+		bwd = sec > tref+half || sec == tref+half && f >= fref
+	}
+	if fwd {
 		return sec + c.eraSecs
 	}
-	if !fwdOnly && sec >= tref+c.eraSecs/2 {
+	if !fwdOnly && bwd {
 		return sec - c.eraSecs
 	}
 	return sec
@@ -68,9 +77,9 @@ func (c consts) unfold(s32, tref int64, fwdOnly bool) int64 {
 func (c consts) nsec(f int64) int64 { return floorDiv(f*c.nsPerSec, c.fracUnits) }
 
 // decode returns (sec, ns) of UnixTime(Unfold(..), Nsec(..))
-func (c consts) decode(s32, f, tref int64, fwdOnly bool) (int64, int64) {
+func (c consts) decode(s32, f, tref, rn int64, fwdOnly, wholeSec bool) (int64, int64) {
 	n := c.nsec(f)
-	return c.unfold(s32, tref, fwdOnly) + floorDiv(n, c.nsPerSec), mod(n, c.nsPerSec)
+	return c.unfold(s32, f, tref, rn, fwdOnly, wholeSec) + floorDiv(n, c.nsPerSec), mod(n, c.nsPerSec)
 }
 
 // -------------------------------------------------------------------- cases
@@ -101,6 +110,7 @@ type evalRec struct {
 	Frac int64  `json:"frac"`
 	Nsec int64  `json:"nsec"`
 	Bf   int64  `json:"bf"`
+	Bw   int64  `json:"bw"`
 	Br   int64  `json:"br"`
 }
 
@@ -114,6 +124,7 @@ type rec struct {
 	Cross  int64    `json:"cross"`  // era of t minus era of the reference
 	Pcross int64    `json:"pcross"` // the same for pt
 	Edge   string   `json:"edge"`   // position of t in the window: lo | hi | mid | out
+	Sd     int64    `json:"sd"`     // -1 / +1: whole seconds of t - t0 are exactly -2^31 / +2^31, else 0
 	Rn     int64    `json:"rn"`     // sub-second part of the reference
 	T      [3]int64 `json:"t"`
 	B      [3]int64 `json:"b"`
@@ -124,8 +135,9 @@ type rec struct {
 	// strict
 	Ds32  int64    `json:"ds32"`
 	Dfrac int64    `json:"dfrac"`
-	Bf    [3]int64 `json:"bf"`
-	Br    [3]int64 `json:"br"`
+	Bf    [3]int64 `json:"bf"` // forward-only, whole seconds
+	Bw    [3]int64 `json:"bw"` // whole seconds
+	Br    [3]int64 `json:"br"` // sub-second part of t0 decides at half an era (default)
 	// replay information (not read by TLC): decimal strings of the real values
 	Real [4]string `json:"real"` // ref sec, ref ns, t sec, t ns
 }
@@ -143,10 +155,14 @@ type aggRec struct {
 	Mind       int64     `json:"mind"`
 	Maxd       int64     `json:"maxd"`
 	Inversions int64     `json:"inversions"`
+	Pt         [3]int64  `json:"pt"`   // the nanosecond before the block
+	Pinv       int64     `json:"pinv"` // 1 iff it came back later than the block's first value
+	Sd         int64     `json:"sd"`
 	FirstBad   int64     `json:"first_bad"` // sub-second value of the first offending time, -1 if none
 	Lost       int64     `json:"lost"`      // how many values came back 1 ns early (information)
 	MisEnc     int64     `json:"misenc"`
 	MisF       int64     `json:"misf"`
+	MisW       int64     `json:"misw"`
 	MisR       int64     `json:"misr"`
 	Real       [2]string `json:"real"` // ref sec, t sec
 }
@@ -198,6 +214,29 @@ func dec(v int64) string { return strconv.FormatInt(v, 10) }
 
 func eraOf(sec int64) int64 { return floorDiv(sec-realc.epoch, two32) }
 
+// inWindow: -2^31 s <= t - t0 < 2^31 s at nanosecond granularity.  Used for labels
+// and case selection only; the monitor recomputes the window from the digits.
+func inWindow(rs, rn, ts, tn int64) bool {
+	switch d := ts - rs; {
+	case d == -two31:
+		return tn >= rn
+	case d == two31:
+		return tn < rn
+	default:
+		return d > -two31 && d < two31
+	}
+}
+
+func halfEra(d int64) int64 {
+	switch d {
+	case -two31:
+		return -1
+	case two31:
+		return 1
+	}
+	return 0
+}
+
 type obs struct {
 	rs, rn, ts, tn int64
 	r              rec
@@ -213,7 +252,7 @@ func observe(src string, emb int, rs, rn, ts, tn int64) obs {
 	r := rec{K: "rt", Src: src, Emb: emb, Era: eraOf(rs), Cross: eraOf(ts) - eraOf(rs), Rn: rn,
 		Real: [4]string{dec(rs), dec(rn), dec(ts), dec(tn)}}
 	switch off := ts - rs; {
-	case off < -two31 || off >= two31:
+	case !inWindow(rs, rn, ts, tn):
 		r.Edge = "out"
 	case off < -two31+two16:
 		r.Edge = "lo"
@@ -222,23 +261,38 @@ func observe(src string, emb int, rs, rn, ts, tn int64) obs {
 	default:
 		r.Edge = "mid"
 	}
+	r.Sd = halfEra(ts - rs)
 	var s1, s2 bool
 	r.T, _ = digits(ts, rs, tn)
 	r.B, s1 = digits(bs, rs, bn)
 	r.D = diffNs(bs, bn, ts, tn)
 	r.Ds32 = clamp(int64(x.Seconds)-realc.sec32(ts), giga)
 	r.Dfrac = clamp(int64(x.Fraction)-realc.frac(tn), giga)
-	fs, fn := realc.decode(int64(x.Seconds), int64(x.Fraction), rs, true)
-	ps, pn := realc.decode(int64(x.Seconds), int64(x.Fraction), rs, false)
+	fs, fn := realc.decode(int64(x.Seconds), int64(x.Fraction), rs, rn, true, true)
+	ws, wn := realc.decode(int64(x.Seconds), int64(x.Fraction), rs, rn, false, true)
+	ps, pn := realc.decode(int64(x.Seconds), int64(x.Fraction), rs, rn, false, false)
 	r.Bf, s2 = digits(fs, rs, fn)
+	r.Bw, _ = digits(ws, rs, wn)
 	r.Br, _ = digits(ps, rs, pn)
 	r.Sat = s1 || s2
 	return obs{rs, rn, ts, tn, r}
 }
 
 // ---------------------------------------------------------- embeddings
+// fill is a seeded deterministic value in [0, m) per (tag, model value, embedding):
+// the same model value always maps to the same real value, so that equal model
+// sub-seconds stay equal and all cases of one model reference share one real reference.
+func fill(tag uint64, v int64, e int, m int64) int64 {
+	z := uint64(vio.Seed())*0x9E3779B97F4A7C15 ^ tag<<56 ^ uint64(v+4096)<<16 ^ uint64(e)
+	z += 0x9E3779B97F4A7C15
+	z = (z ^ z>>30) * 0xBF58476D1CE4E5B9
+	z = (z ^ z>>27) * 0x94D049BB133111EB
+	z ^= z >> 31
+	return int64(z % uint64(m))
+}
+
 // scaled position in the era (0..63) -> real position (0..2^32-1), order preserving
-func embPos(pos int64, e int, rng *rand.Rand) int64 {
+func embPos(pos int64, e int) int64 {
 	if e == 0 {
 		return pos * two26
 	}
@@ -250,27 +304,29 @@ func embPos(pos int64, e int, rng *rand.Rand) int64 {
 	case pos >= 30 && pos <= 34:
 		return two31 + (pos - 32)
 	}
-	return pos*two26 + rng.Int63n(two26)
+	return pos*two26 + fill(1, pos, e, two26)
 }
 
-// scaled offset (-33..32) -> real offset in seconds
-func embOff(o int64, e int, rng *rand.Rand) int64 {
+// scaled offset (-33..32) -> real offset in whole seconds, order preserving;
+// -32 -> -2^31 and 32 -> 2^31 (the two ends of the window) in every embedding
+func embOff(o int64, e int) int64 {
 	if e == 0 {
 		return o * two26
 	}
 	switch {
 	case o <= -30:
-		return -two31 + (o + 32) // -33 -> -2^31-1 (outside), -32 -> -2^31, ...
+		return -two31 + (o + 32) // -33 -> -2^31-1, -32 -> -2^31, ...
 	case o >= 29:
-		return two31 + (o - 32) // 32 -> 2^31 (outside), 31 -> 2^31-1, ...
+		return two31 + (o - 32) // 32 -> 2^31, 31 -> 2^31-1, ...
 	case o >= -2 && o <= 2:
 		return o
 	}
-	return o*two26 + rng.Int63n(two26)
+	return o*two26 + fill(2, o, e, two26)
 }
 
-// scaled sub-second value (0..999) -> real nanosecond
-func embNs(n int64, e int, rng *rand.Rand) int64 {
+// scaled sub-second value (0..999) -> real nanosecond (embeddings 0 and 1; used for
+// the reference's sub-second part as well, so that equality is preserved)
+func embNs(n int64, e int) int64 {
 	if e == 0 {
 		return n * 1000000
 	}
@@ -279,35 +335,56 @@ func embNs(n int64, e int, rng *rand.Rand) int64 {
 		return n
 	case n >= 996:
 		return giga - (1000 - n)
-	case n == 232 || n == 233:
+	case n >= 232 && n <= 234:
 		return n
-	case n%125 == 0: // exactly representable: multiples of 5^9
-		return five9 * (64*(n/125) + rng.Int63n(64))
+	case n%125 == 0: // exactly representable: multiples of 5^9 * 64
+		return n * 1000000
 	}
-	for k := int64(2); k <= 9; k++ { // 2^k, 2^k +- 1 -> 2^k', 2^k' +- 1 with k' in {3k, 3k+1, 3k+2}
+	for k := int64(2); k <= 9; k++ { // 2^k, 2^k +- 1 -> 2^3k, 2^3k +- 1
 		p := int64(1) << k
 		if n >= p-1 && n <= p+1 {
-			kk := 3*k + int64(e-1)%3
-			if e >= 2 {
-				kk = 3*k + 1 + rng.Int63n(2)
-			}
-			return int64(1)<<kk + (n - p)
+			return int64(1)<<(3*k) + (n - p)
 		}
 	}
-	return n*1000000 + rng.Int63n(1000000)
+	return n*1000000 + fill(3, n, e, 1000000)
 }
 
-func embRefNs(rn int64, e int, rng *rand.Rand) int64 {
-	if rn == 0 {
-		return 0
-	}
-	switch e {
+func loses(x int64) bool { return realc.nsec(realc.frac(x)) != x }
+
+// embedding 2 ("translation"): the reference's sub-second part is a seeded value that
+// loses a nanosecond in the round trip (model 233), one that does not (model 512: a
+// multiple of 5^9), the
+// last nanosecond (999) or 0; the time's sub-second part keeps its model distance to it
+// when that is at most 2 (nsec = nref - 1, nref, nref + 1 ...) and its side otherwise.
+func refNs2(rn int64) int64 {
+	switch rn {
 	case 0:
-		return rn * 1000000
-	case 1:
+		return 0
+	case 999:
 		return giga - 1
 	}
-	return 1 + rng.Int63n(giga-1)
+	if rn == 512 { // exactly representable values (multiples of 5^9) are the only ones that do not lose
+		return five9 * (1 + fill(4, rn, 2, 511))
+	}
+	x := 1000 + fill(4, rn, 2, giga-2000)
+	if !loses(x) {
+		x++
+	}
+	return x
+}
+
+func embNs2(n, rn int64) int64 {
+	r := refNs2(rn)
+	d := n - rn
+	switch {
+	case d >= -2 && d <= 2 && r+d >= 0 && r+d < giga:
+		return r + d
+	case d < 0 && r > 0:
+		return fill(5, n, 2, r)
+	case d > 0 && r+1 < giga:
+		return r + 1 + fill(5, n, 2, giga-r-1)
+	}
+	return embNs(n, 1)
 }
 
 const lastRef = -2208988800 + 5*two32 + 3*two26 // beyond the end of era 4 (year 2580)
@@ -341,13 +418,14 @@ func TestC04(t *testing.T) {
 		}
 		// evaluator at the scaled constants, validated by TLC against the spec
 		x32, xf := scaled.sec32(c.R+c.O), scaled.frac(c.N)
-		bf, _ := scaled.decode(x32, xf, c.R, true)
-		br, _ := scaled.decode(x32, xf, c.R, false)
+		bf, _ := scaled.decode(x32, xf, c.R, c.Rn, true, true)
+		bw, _ := scaled.decode(x32, xf, c.R, c.Rn, false, true)
+		br, _ := scaled.decode(x32, xf, c.R, c.Rn, false, false)
 		evOut.Emit(evalRec{K: "eval", R: c.R, Rn: c.Rn, O: c.O, N: c.N, S32: x32, Frac: xf, Nsec: scaled.nsec(xf),
-			Bf: bf - c.R, Br: br - c.R})
+			Bf: bf - c.R, Bw: bw - c.R, Br: br - c.R})
 		// the real functions at the real constants
 		for e := 0; e < nemb; e++ {
-			rs := realc.epoch + c.Era*two32 + embPos(c.Pos, e, rng)
+			rs := realc.epoch + c.Era*two32 + embPos(c.Pos, e)
 			if rs < 0 { // references start in 1970
 				rs = c.R
 			}
@@ -355,28 +433,50 @@ func TestC04(t *testing.T) {
 				skipped++
 				continue
 			}
-			add(observe("tlc", e, rs, embRefNs(c.Rn, e, rng), rs+embOff(c.O, e, rng), embNs(c.N, e, rng)))
+			rn, tn := embNs(c.Rn, e), embNs(c.N, e)
+			if e == 2 {
+				rn, tn = refNs2(c.Rn), embNs2(c.N, c.Rn)
+			}
+			add(observe("tlc", e, rs, rn, rs+embOff(c.O, e), tn))
 		}
 	}
-	// seeded random references and times (uniform over the range / the window / the second)
-	nrnd := 2000
+	// seeded random references (two thirds with a sub-second part) and times: the two
+	// ends of the window on both sides of the reference's sub-second part, the other side
+	// of the nearest era boundary, uniform over the window
+	nrnd := 2400
 	if vio.Thorough() {
-		nrnd = 100000
+		nrnd = 96000
 	}
-	for i := 0; i < nrnd/20; i++ {
+	for i := 0; i < nrnd/24; i++ {
 		rs := rng.Int63n(lastRef + 1)
 		rn := int64(0)
-		if i%3 == 0 {
-			rn = rng.Int63n(giga)
+		if i%3 != 0 {
+			rn = 1 + rng.Int63n(giga-2)
 		}
-		for j := 0; j < 20; j++ {
-			off := rng.Int63n(two32) - two31
+		for j := 0; j < 24; j++ {
+			off, tn := rng.Int63n(two32)-two31, rng.Int63n(giga)
 			switch j {
 			case 0:
-				off = -two31
+				off, tn = -two31, rn
 			case 1:
+				off, tn = -two31, rn+1
+			case 2:
+				off, tn = -two31, rn+rng.Int63n(giga-rn)
+			case 3:
+				off, tn = -two31, rn-1 // outside (or the last ns of the second before, for rn = 0)
+			case 4:
+				off, tn = two31, rn-1
+			case 5:
+				off, tn = two31, rn-2
+			case 6:
+				off, tn = two31, rng.Int63n(rn+1)
+			case 7:
+				off, tn = two31, rn // outside
+			case 8:
 				off = two31 - 1
-			case 2: // the other side of the nearest era boundary
+			case 9:
+				off, tn = -two31+1, 0
+			case 10: // the other side of the nearest era boundary
 				p := realc.sec32(rs)
 				if p < two31 {
 					off = -p - 1 - rng.Int63n(2)
@@ -384,7 +484,11 @@ func TestC04(t *testing.T) {
 					off = two32 - p + rng.Int63n(2)
 				}
 			}
-			add(observe("rnd", 8, rs, rn, rs+off, rng.Int63n(giga)))
+			ts := rs + off
+			if tn < 0 {
+				ts, tn = ts-1, tn+giga
+			}
+			add(observe("rnd", 8, rs, rn, ts, tn))
 		}
 	}
 	// order pairs: every time with its predecessor among the times of the same reference
@@ -407,7 +511,7 @@ func TestC04(t *testing.T) {
 			n++
 		}
 	}
-	na := sweep(t, out, rng)
+	na := sweep(out, rng)
 	t.Logf("C04 rt-records=%d agg-records=%d eval-records=%d references=%d skipped=%d", n, na, evOut.N, len(order), skipped)
 	if n == 0 {
 		t.Fatal("no record produced")
@@ -420,22 +524,24 @@ func TestC04(t *testing.T) {
 // the number of order inversions between adjacent nanoseconds.
 type combo struct{ rs, rn, ts int64 }
 
-func sweep(t *testing.T, out *vio.Out, rng *rand.Rand) int {
+func sweep(out *vio.Out, rng *rand.Rand) int {
 	era := func(k int64) int64 { return realc.epoch + k*two32 }
+	const half = giga / 2
 	combos := []combo{
-		{era(1) + 1, 0, era(1) - 1},         // time before the 2036 boundary, reference after it
-		{era(1) - 1, 0, era(1) + 1},         // the converse
-		{1705449600, 123456789, 1705449600}, // 2024-01-17, same second
-		{0, 0, -two31},                      // 1970, lower end of the window
-		{era(2) + two31 - 1, 0, era(2) - 1}, // lower end of the window just before era 2
-		{era(3) - two31 + 1, 0, era(3)},     // upper end of the window at era 3
-		{era(4), 0, era(4)},                 // on the boundary
-		{era(4) + 5, 0, era(4) - 7},         // era 4 (year 2444) crossing
+		{era(1) + 1, 0, era(1) - 1},                // time before the 2036 boundary, reference after it
+		{era(1) - 1, 0, era(1) + 1},                // the converse
+		{1705449600, 123456789, 1705449600},        // 2024-01-17, same second
+		{0, 0, -two31},                             // 1970, lower end of the window
+		{era(2) + two31 - 1, 0, era(2) - 1},        // lower end of the window just before era 2
+		{era(3) - two31 + 1, 0, era(3)},            // last whole second of the window at era 3
+		{era(4) + 5, 0, era(4) - 7},                // era 4 (year 2444) crossing
+		{1700000000, half, 1700000000 + two31},     // upper end: inside for nsec < nref
+		{1700000000, half, 1700000000 - two31},     // lower end: inside for nsec >= nref
+		{era(2) - two31 + 3, half, era(2) + 3},     // upper end in the next era
+		{era(3) + two31 - 3, giga - 1, era(3) - 3}, // lower end in the previous era, nref = 999999999
 	}
-	for i := 0; i < 2; i++ {
-		rs := rng.Int63n(lastRef + 1)
-		combos = append(combos, combo{rs, rng.Int63n(giga), rs + rng.Int63n(two32) - two31})
-	}
+	rs := rng.Int63n(lastRef + 1)
+	combos = append(combos, combo{rs, rng.Int63n(giga), rs + rng.Int63n(two32) - two31})
 	const blk = int64(1000000)
 	type job struct {
 		c      combo
@@ -444,8 +550,10 @@ func sweep(t *testing.T, out *vio.Out, rng *rand.Rand) int {
 	var jobs []job
 	for ci, c := range combos {
 		for b := int64(0); b < giga/blk; b++ {
-			// quick: first, last and seeded blocks of every combination
-			if !vio.Thorough() && b != 0 && b != giga/blk-1 && (b*7+int64(ci)*13+vio.Seed())%50 != 0 {
+			// quick: first and last block, the blocks next to the reference's sub-second
+			// part, and seeded blocks of every combination
+			nb := c.rn / blk
+			if !vio.Thorough() && b != 0 && b != giga/blk-1 && b != nb && b != nb-1 && (b*7+int64(ci)*13+vio.Seed())%50 != 0 {
 				continue
 			}
 			jobs = append(jobs, job{c, b * blk, (b + 1) * blk})
@@ -478,22 +586,16 @@ func sweepBlock(c combo, n0, n1 int64) aggRec {
 	ref := time.Unix(c.rs, c.rn)
 	d3, _ := digits(c.ts, c.rs, 0)
 	a := aggRec{K: "agg", Era: eraOf(c.rs), Cross: eraOf(c.ts) - eraOf(c.rs), Rn: c.rn, Sec: [2]int64{d3[0], d3[1]},
-		N0: n0, N1: n1, Pcross: eraOf(c.ts) - eraOf(c.rs), Mind: giga, Maxd: -giga, FirstBad: -1, Real: [2]string{dec(c.rs), dec(c.ts)}}
+		N0: n0, N1: n1, Sd: halfEra(c.ts - c.rs), Mind: giga, Maxd: -giga, FirstBad: -1, Real: [2]string{dec(c.rs), dec(c.ts)}}
 	s32 := realc.sec32(c.ts)
-	// predecessor of the first value of the block (previous nanosecond), if it is in the window
-	var prev time.Time
-	havePrev := false
-	if n0 > 0 {
-		prev = ntp.TimeFromTime64(ntp.Time64FromTime(time.Unix(c.ts, n0-1)), ref)
-		havePrev = true
-	} else if c.ts-1-c.rs >= -two31 && (c.rn == 0 || c.ts-1-c.rs > -two31) {
-		prev = ntp.TimeFromTime64(ntp.Time64FromTime(time.Unix(c.ts-1, giga-1)), ref)
-		a.Pcross = eraOf(c.ts-1) - eraOf(c.rs)
-		havePrev = true
+	// the nanosecond before the block; whether it is inside the window is decided by the monitor
+	pts, ptn := c.ts, n0-1
+	if n0 == 0 {
+		pts, ptn = c.ts-1, giga-1
 	}
-	var fs, ps int64
-	var lastSec uint32
-	haveSec := false
+	a.Pt, _ = digits(pts, c.rs, ptn)
+	a.Pcross = eraOf(pts) - eraOf(c.rs)
+	prev := ntp.TimeFromTime64(ntp.Time64FromTime(time.Unix(pts, ptn)), ref)
 	for n := n0; n < n1; n++ {
 		x := ntp.Time64FromTime(time.Unix(c.ts, n))
 		b := ntp.TimeFromTime64(x, ref)
@@ -509,29 +611,32 @@ func sweepBlock(c combo, n0, n1 int64) aggRec {
 		if d == -1 {
 			a.Lost++
 		}
-		if havePrev && b.Before(prev) {
-			a.Inversions++
-			bad = true
+		if b.Before(prev) {
+			if n == n0 {
+				a.Pinv = 1
+			} else {
+				a.Inversions++
+				bad = true
+			}
 		}
 		if bad && a.FirstBad < 0 {
 			a.FirstBad = n
 		}
-		prev, havePrev = b, true
+		prev = b
 		a.Count++
 		// strict: the transcription at the real constants
-		if int64(x.Seconds) != s32 || int64(x.Fraction) != realc.frac(n) {
+		xs, xf := int64(x.Seconds), int64(x.Fraction)
+		if xs != s32 || xf != realc.frac(n) {
 			a.MisEnc++
 		}
-		if !haveSec || lastSec != x.Seconds { // the unfolded second depends on Seconds and t0 only
-			fs = realc.unfold(int64(x.Seconds), c.rs, true)
-			ps = realc.unfold(int64(x.Seconds), c.rs, false)
-			lastSec, haveSec = x.Seconds, true
-		}
-		en := realc.nsec(int64(x.Fraction))
-		if fs != bs || en != bn {
+		en := realc.nsec(xf)
+		if realc.unfold(xs, xf, c.rs, c.rn, true, true) != bs || en != bn {
 			a.MisF++
 		}
-		if ps != bs || en != bn {
+		if realc.unfold(xs, xf, c.rs, c.rn, false, true) != bs || en != bn {
+			a.MisW++
+		}
+		if realc.unfold(xs, xf, c.rs, c.rn, false, false) != bs || en != bn {
 			a.MisR++
 		}
 	}
